@@ -31,16 +31,35 @@ def classify(clause: str, tr: dict, e: dict):
     return f"{what}/{e['in']['k']}{'' if e['in']['chunk'] or e['in']['k'] != 'frame' else '-truncated'}"
 
 
+def with_bad_inputs(behs, seed: int):
+    """the model says a bad input changes nothing, wherever it arrives: every generated history gets three more of
+    them at random places (between the frames of a fast-packet message included) and is still a behaviour"""
+    import random
+    rng = random.Random(seed + 99)
+    out = []
+    for beh in behs:
+        if len(beh) < 3:
+            out.append(beh)
+            continue
+        beh = list(beh)
+        cfg = beh[1][1]["cfg"]
+        for _ in range(3):
+            pos = rng.randrange(1, len(beh) + 1)
+            beh.insert(pos, ("BadInserted", {"cfg": cfg, "ev": {"k": "bad"}}))
+        out.append(beh)
+    return out
+
+
 def bind(chk: Check, tier: str, seed: int):
     wd = workdir(PROP)
-    traces, outs, drops = c10.run_traces(chk, wd, PROP, tier, seed, classify)
+    traces, outs, drops = c10.run_traces(chk, wd, PROP, tier, seed, classify, augment=lambda b: with_bad_inputs(b, seed))
     # determinism: the same behaviours replayed again on fresh objects give the same record
     from ..tlc import simulate
     from .. import decoderrun as dr
     import random
     num, depth = {"quick": (600, 16), "thorough": (6000, 16), "selftest": (600, 16)}[tier]
     beh = simulate("MC_Decoder", f"MC_Decoder_sim{PROP}.cfg", num=num, depth=depth, seed=seed + 7, name=f"dsim{PROP}b", only={"ev", "cfg"})
-    again = dr.replay(beh, random.Random(seed))
+    again = dr.replay(with_bad_inputs(beh, seed), random.Random(seed))
     for i, (a, b) in enumerate(zip(traces, again)):
         if json.dumps(a["evs"], sort_keys=True) != json.dumps(b["evs"], sort_keys=True):
             k = next(j for j, (x, y) in enumerate(zip(a["evs"], b["evs"])) if x != y)
